@@ -179,8 +179,10 @@ def replay_operator(world, run, ob, opts):
     import rxsci as rs
     from rx.subject import Subject
     c = run.contract
-    where = ob.name.split('/path')[0] if '/path' in ob.name else None
-    ctx = getattr(run, 'ctxs', {}).get(where)
+    ctx = None
+    for key, cx in getattr(run, 'ctxs', {}).items():
+        if ob.name.startswith(key + '/'):
+            ctx = cx
     if ctx is None or ob.model is None:
         return {'status': 'no-replay', 'reason': 'obligation is not a handler case obligation or has no model'}
     conc = Concretizer(ob.model)
@@ -214,18 +216,23 @@ def replay_operator(world, run, ob, opts):
     key = conc.key(ctx.k)
     k0 = key[0]
     # pre-state of the slots the contract talks about
-    idxs = [k0]
+    idxs_by_state = {st.ord: [k0] for st in ctx.states}
     if hasattr(c, 'replay_indices'):
-        idxs = list(c.replay_indices(ctx, conc))
+        ri = c.replay_indices(ctx, conc)
+        idxs_by_state = ri if isinstance(ri, dict) else {st.ord: list(ri) for st in ctx.states}
     pre = {}
     for st in ctx.states:
-        for idx in idxs:
+        for idx in idxs_by_state[st.ord]:
             m = conc.ev(Select(ctx.m0[st.ord], IntVal(idx))).as_long()
             if m in (M_NOTSET, M_SET):
                 kk = (idx, key) if idx != k0 else key
                 store.add_key(st.ord, kk)
                 if m == M_SET:
-                    v = conc.val(Select(ctx.v0[st.ord], IntVal(idx)))
+                    sel = Select(ctx.v0[st.ord], IntVal(idx))
+                    if st.dtype in ('int', 'uint'): v = conc.ev(V.i(sel)).as_long()
+                    elif st.dtype == 'bool': v = is_true(conc.ev(V.b(sel)))
+                    elif st.dtype == 'float': v = conc.val(V.VReal(V.r(sel)))
+                    else: v = conc.val(sel)
                     pre[(st.ord, idx)] = ('SET', repr(v))
                     store.set_state(st.ord, kk, v)
                 else:
@@ -267,7 +274,7 @@ def replay_operator(world, run, ob, opts):
     for st in ctx.states:
         m1, v1 = ctx.m0[st.ord], ctx.v0[st.ord]
         inner = store.get_store().states[st.ord]
-        for idx in idxs:
+        for idx in idxs_by_state[st.ord]:
             if idx < len(inner.state):
                 mk = inner.state[idx]
                 m1 = Store(m1, IntVal(idx), IntVal(mk))
